@@ -1,5 +1,7 @@
 package yqlib
 
+import yaml "gopkg.in/yaml.v3"
+
 // C16 — path, key and parent describe where a node actually is.
 
 var c16SeqProducers = []string{".a", ".a | sort", ".a | sort_by(.)", ".a | reverse", ".a | unique", ".a | .[1:]", ".a | map(.)", ".a | filter(. != 2)", "[.a[]]", ".a + [9]", ".a | (.[0] = 7)", ".a | flatten",
@@ -270,4 +272,71 @@ func VerifC16CopyThenDelete() {
 		}
 	}
 	verifCover("C16/copydelete/end")
+}
+
+// VerifC16AfterRebuild: documents whose nodes were put in place by an operator rather than by the decoder — exploded
+// aliases (of maps and sequences, nested), values assigned or merged in, entries rebuilt: every node `..` reaches
+// has a path that leads to itself from the root, its key is the last path element and its parent is the node that
+// holds it. (The parent pointer itself is not trusted: the holder is found by walking the tree.)
+func VerifC16AfterRebuild() {
+	k1, k2 := verifStrN("k1", 1, "ac"), verifStrN("k2", 1, "ac")
+	verifAssume(!verifEqStr(k1, k2))
+	build := func() *CandidateNode {
+		inner := vMap(vStr(k2), vSeq(vInt("1"), vInt("2")))
+		x := vMap(vStr(k1), inner, vStr("z"), vInt("3"))
+		x.Anchor = "x"
+		s := vSeq(vInt("4"), vMap(vStr(k1), vInt("5")))
+		s.Anchor = "s"
+		return vDoc(vMap(vStr("A"), x, vStr("B"), &yaml.Node{Kind: yaml.AliasNode, Value: "x", Alias: x}, vStr("S"), s,
+			vStr("T"), vSeq(&yaml.Node{Kind: yaml.AliasNode, Value: "s", Alias: s}), vStr("M"), vMap(vS("!!merge", "<<"), &yaml.Node{Kind: yaml.AliasNode, Value: "x", Alias: x}, vStr("w"), vInt("6"))))
+	}
+	steps := []string{"explode(.)", "explode(.B) | explode(.T)", ".C = .A", ".C = .A * {\"n\": {\"m\": 1}}", ".C = (.S | map(.))", ".A |= with_entries(.)", ".C = (.A | to_entries | from_entries)",
+		".C = (.M | explode(.))", ".B |= explode(.)", ".C = .A + {\"q\": [1]}", ".A.n.m = 1", "explode(.) | .D = .B"}
+	// (collected and concatenated sequences - `[.A, .S]`, `.S + [7]` - keep stale element keys: the recorded C16 finding)
+	si := verifChoice("step", len(steps))
+	root := build()
+	if _, err := vEval(vParse(steps[si]), root); err != nil {
+		verifFail("C16/rebuild-step-failed step=" + steps[si])
+	}
+	label := "after=" + steps[si]
+	res, err := vEval(vParse(".."), root)
+	if err != nil {
+		verifFail("C16/recursive-descent-failed " + label)
+	}
+	// holder of every node, by walking the tree
+	holder := map[*CandidateNode]*CandidateNode{}
+	var walk func(n *CandidateNode)
+	walk = func(n *CandidateNode) {
+		for _, c := range n.Content {
+			if _, seen := holder[c]; !seen {
+				holder[c] = n
+				walk(c)
+			}
+		}
+	}
+	walk(root)
+	count := 0
+	for _, nd := range vNodes(res) {
+		if nd == root {
+			continue
+		}
+		if _, inTree := holder[nd]; !inTree {
+			continue // reached through an alias: the node lives under its anchor, where `..` reaches it as well
+		}
+		pa := c16One("path", nd)
+		verifAssert(pa != nil, "C16/path-missing "+label)
+		if pa == nil {
+			continue
+		}
+		verifAssert(c16Follow(root, pa, 0) == nd, "C16/path-leads-to-node "+label)
+		if len(pa.Content) > 0 {
+			kn := c16One("key", nd)
+			verifAssert(kn != nil && verifConcreteBool(verifEqStr(kn.Value, pa.Content[len(pa.Content)-1].Value)), "C16/key-is-last-path-element "+label)
+		}
+		pn := c16One("parent", nd)
+		verifAssert(pn == holder[nd], "C16/parent-is-holder "+label)
+		count++
+	}
+	verifAssert(count >= 5, "C16/rebuild-node-count "+label)
+	verifCover("C16/rebuild/end")
 }
